@@ -137,4 +137,6 @@ class BaseProtocol(asyncio.Protocol):
         if waiter is None:
             waiter = self._loop.create_future()
             self._drain_waiter = waiter
-        await waiter
+        # The waiter is shared by everyone who drains: cancelling one of them
+        # must not cancel the future the others are awaiting.
+        await asyncio.shield(waiter)
